@@ -51,3 +51,230 @@ func VerifH_C05_RemainingLength() {
 	verifAssert(ok, "C05.rl_decodable")
 	verifAssert(v == n, "C05.rl_roundtrip")
 }
+
+// C05 (c): pack = type ‖ RL(Σ len) ‖ concatenation of the parts.
+func VerifH_C05_Pack() {
+	typ := verifNondetU8("typ")
+	np := verifChoice("parts", 4)
+	var parts [][]byte
+	var all []byte
+	for i := 0; i < np; i++ {
+		l := verifChoice("len", 4)
+		p := verifBytes("b", l)
+		parts = append(parts, p)
+		all = append(all, p...)
+	}
+	got := pack(typ, parts...)
+	verifReach("packed")
+	verifAssert(verifBytesEq(got, refPacketBytes(typ, all)), "C05.pack_layout")
+}
+
+func verifPublishCheck(m *Message, want refPacket, b []byte, tag string) {
+	p := refDecode(b)
+	verifAssert(p.ok, "C05.publish_wellformed"+tag)
+	if !p.ok {
+		return
+	}
+	verifAssert(p.typ == 3, "C05.publish_type"+tag)
+	verifAssert(refFlagsOK(p), "C05.publish_flags_legal"+tag)
+	verifAssert((p.flags>>1)&3 == byte(m.QoS), "C05.publish_qos"+tag)
+	verifAssert((p.flags&0x08 != 0) == m.Dup, "C05.publish_dup"+tag)
+	verifAssert((p.flags&0x01 != 0) == m.Retain, "C05.publish_retain"+tag)
+	verifAssert(verifBytesEq(p.topic, []byte(m.Topic)), "C05.publish_topic"+tag)
+	verifAssert(verifBytesEq(p.payload, m.Payload), "C05.publish_payload"+tag)
+	if m.QoS > 0 {
+		verifAssert(p.id == m.ID, "C05.publish_id"+tag)
+	}
+}
+
+// C05 (d): PUBLISH carries exactly the requested fields; id present iff QoS>0.
+func VerifH_C05_Publish() {
+	tl := verifChoice("topiclen", 3) + 1
+	pl := verifChoice("payloadlen", 4)
+	m := &Message{
+		Topic:   string(verifBytes("topic", tl)),
+		ID:      verifNondetU16("id"),
+		QoS:     QoS(verifNondetU8("qos")),
+		Retain:  verifNondetBool("retain"),
+		Dup:     verifNondetBool("dup"),
+		Payload: verifBytes("payload", pl),
+	}
+	verifAssume(m.QoS <= 2)
+	b := (&pktPublish{Message: m}).Pack()
+	verifReach("packed")
+	// id present iff QoS>0: total length tells
+	want := 1 + 1 + 2 + tl + pl
+	if m.QoS > 0 {
+		want += 2
+	}
+	verifAssert(len(b) == want, "C05.publish_id_iff_qos")
+	verifPublishCheck(m, refPacket{}, b, "")
+}
+
+// C05 (d'): bodies around the remaining-length boundaries.
+func VerifH_C05_PublishBig() {
+	sizes := []int{127, 128, 16383, 16384}
+	if verifParam("huge", 0) == 1 {
+		sizes = []int{2097151, 2097152}
+	}
+	body := sizes[verifChoice("size", len(sizes))]
+	qos := QoS(verifNondetU8("qos"))
+	verifAssume(qos <= 2)
+	overhead := 2 + 1
+	if qos > 0 {
+		overhead += 2
+	}
+	payload := make([]byte, body-overhead)
+	payload[0] = verifNondetU8("first")
+	payload[len(payload)-1] = verifNondetU8("last")
+	m := &Message{Topic: string(verifBytes("topic", 1)), ID: verifNondetU16("id"), QoS: qos, Payload: payload}
+	b := (&pktPublish{Message: m}).Pack()
+	verifReach("packed")
+	verifAssert(len(b) == 1+len(refEncodeRL(body))+body, "C05.publish_big_length")
+	verifPublishCheck(m, refPacket{}, b, "_big")
+}
+
+// C05 (f): SUBSCRIBE / UNSUBSCRIBE filters and QoS in order, flags nibble 0x2.
+func VerifH_C05_Subscribe() {
+	n := verifChoice("nsubs", 3) + 1
+	var subs []Subscription
+	for i := 0; i < n; i++ {
+		q := QoS(verifNondetU8("qos"))
+		verifAssume(q <= 2)
+		subs = append(subs, Subscription{Topic: string(verifBytes("f", verifChoice("flen", 2)+1)), QoS: q})
+	}
+	id := verifNondetU16("id")
+	b := (&pktSubscribe{ID: id, Subscriptions: subs}).Pack()
+	verifReach("packed")
+	p := refDecode(b)
+	verifAssert(p.ok, "C05.subscribe_wellformed")
+	if !p.ok {
+		return
+	}
+	verifAssert(verifAnd(p.typ == 8, p.flags == 2), "C05.subscribe_header")
+	verifAssert(p.id == id, "C05.subscribe_id")
+	verifAssert(len(p.filters) == n, "C05.subscribe_count")
+	for i := 0; i < n && i < len(p.filters); i++ {
+		verifAssert(verifBytesEq(p.filters[i], []byte(subs[i].Topic)), "C05.subscribe_filter_order")
+		verifAssert(p.qoss[i] == byte(subs[i].QoS), "C05.subscribe_qos_order")
+	}
+}
+
+func VerifH_C05_Unsubscribe() {
+	n := verifChoice("n", 3) + 1
+	var fs []string
+	for i := 0; i < n; i++ {
+		fs = append(fs, string(verifBytes("f", verifChoice("flen", 2)+1)))
+	}
+	id := verifNondetU16("id")
+	b := (&pktUnsubscribe{ID: id, Topics: fs}).Pack()
+	verifReach("packed")
+	p := refDecode(b)
+	verifAssert(p.ok, "C05.unsubscribe_wellformed")
+	if !p.ok {
+		return
+	}
+	verifAssert(verifAnd(p.typ == 10, p.flags == 2), "C05.unsubscribe_header")
+	verifAssert(p.id == id, "C05.unsubscribe_id")
+	verifAssert(len(p.filters) == n, "C05.unsubscribe_count")
+	for i := 0; i < n && i < len(p.filters); i++ {
+		verifAssert(verifBytesEq(p.filters[i], []byte(fs[i])), "C05.unsubscribe_filter_order")
+	}
+}
+
+// C05 (g): fixed forms.
+func VerifH_C05_Acks() {
+	id := verifNondetU16("id")
+	check := func(b []byte, typ, flags byte, tag string) {
+		p := refDecode(b)
+		verifAssert(p.ok, "C05.ack_wellformed_"+tag)
+		if p.ok {
+			verifAssert(verifAnd(p.typ == typ, p.flags == flags), "C05.ack_header_"+tag)
+			verifAssert(p.id == id, "C05.ack_id_"+tag)
+		}
+	}
+	check((&pktPubAck{ID: id}).Pack(), 4, 0, "puback")
+	check((&pktPubRec{ID: id}).Pack(), 5, 0, "pubrec")
+	check((&pktPubRel{ID: id}).Pack(), 6, 2, "pubrel")
+	check((&pktPubComp{ID: id}).Pack(), 7, 0, "pubcomp")
+	verifReach("acks")
+	verifAssert(verifBytesEq(pack(packetPingReq.b()), []byte{0xC0, 0}), "C05.pingreq_form")
+	verifAssert(verifBytesEq(pack(packetDisconnect.b()), []byte{0xE0, 0}), "C05.disconnect_form")
+}
+
+// C05 (e): CONNECT through the public API.  The context is already cancelled,
+// so Connect writes the CONNECT packet and returns; the bytes are then read
+// back with the reference decoder.
+func VerifH_C05_Connect() {
+	conn := newVconn("c0")
+	cli := &BaseClient{Transport: conn}
+	ctx, cancel := contextCancelled()
+	defer cancel()
+
+	clean := verifNondetBool("clean")
+	keep := verifNondetU16("keepalive")
+	var opts []ConnectOption
+	opts = append(opts, WithCleanSession(clean), WithKeepAlive(keep))
+	level := byte(4)
+	if verifChoice("level", 2) == 1 {
+		level = verifNondetU8("level")
+		opts = append(opts, WithProtocolLevel(ProtocolLevel(level)))
+	}
+	var will *Message
+	if verifChoice("will", 2) == 1 {
+		will = &Message{
+			Topic:   string(verifBytes("wtopic", 1)),
+			QoS:     QoS(verifNondetU8("wqos")),
+			Retain:  verifNondetBool("wretain"),
+			Payload: verifBytes("wpayload", verifChoice("wplen", 2)),
+		}
+		verifAssume(will.QoS <= 2)
+		opts = append(opts, WithWill(will))
+	}
+	user := string(verifBytes("user", verifChoice("userlen", 2)))
+	pass := string(verifBytes("pass", verifChoice("passlen", 2)))
+	if verifChoice("cred", 2) == 1 {
+		opts = append(opts, WithUserNamePassword(user, pass))
+	} else {
+		user, pass = "", ""
+	}
+	id := string(verifBytes("clientid", verifChoice("idlen", 2)+1))
+	_, err := cli.Connect(ctx, id, opts...)
+	verifAssert(err != nil, "C05.connect_harness_ctx")
+	ws := conn.okWrites()
+	verifAssert(len(ws) == 1, "C05.connect_one_packet")
+	conn.Close()
+	if len(ws) != 1 {
+		return
+	}
+	verifReach("connect-written")
+	p := refDecode(ws[0])
+	verifAssert(p.ok, "C05.connect_wellformed")
+	if !p.ok {
+		return
+	}
+	verifAssert(p.typ == 1, "C05.connect_type")
+	verifAssert(verifBytesEq(p.protoName, []byte("MQTT")), "C05.connect_protocol_name")
+	verifAssert(p.level == level, "C05.connect_level")
+	verifAssert(p.keepAlive == keep, "C05.connect_keepalive")
+	verifAssert(verifBytesEq(p.clientID, []byte(id)), "C05.connect_clientid")
+	verifAssert((p.cflags&0x02 != 0) == clean, "C05.connect_clean_session")
+	verifAssert(refConnectFlagsOK(p.cflags), "C05.connect_flags_wellformed")
+	verifAssert((p.cflags&0x04 != 0) == (will != nil), "C05.connect_will_flag")
+	if will != nil && p.cflags&0x04 != 0 {
+		verifAssert((p.cflags>>3)&3 == byte(will.QoS), "C05.connect_will_qos")
+		verifAssert((p.cflags&0x20 != 0) == will.Retain, "C05.connect_will_retain")
+		verifAssert(verifBytesEq(p.willTopic, []byte(will.Topic)), "C05.connect_will_topic")
+		verifAssert(verifBytesEq(p.willMsg, will.Payload), "C05.connect_will_payload")
+	}
+	// credentials: what was asked for is carried, with matching flags.  A flag may be
+	// set for an empty string (zero-length fields are legal), never the other way round.
+	verifAssert(verifImplies(user != "", p.cflags&0x80 != 0), "C05.connect_user_flag")
+	verifAssert(verifImplies(pass != "", p.cflags&0x40 != 0), "C05.connect_pass_flag")
+	if p.cflags&0x80 != 0 {
+		verifAssert(verifBytesEq(p.user, []byte(user)), "C05.connect_user")
+	}
+	if p.cflags&0x40 != 0 {
+		verifAssert(verifBytesEq(p.pass, []byte(pass)), "C05.connect_pass")
+	}
+}
